@@ -429,6 +429,22 @@ Op("cuboid_ctor", [PT3_S] * 4, lambda a, p: Cuboid(*a), api="Cuboid")
 Op("simplex_ctor3", [PT_S] * 3, lambda a, p: Simplex(*a), api="Simplex")
 Op("simplex_ctor4", [PT3_S] * 4, lambda a, p: Simplex(*a), api="Simplex")
 Op("simplex_ctor2", [PT_S] * 2, lambda a, p: Simplex(*a), api="Simplex")
+Op("polyhedron_ctor", [S("polygon", 3, False)] * 4, lambda a, p: __import__("geometer.shapes", fromlist=["x"]).Polyhedron(*a),
+   api="Polyhedron")
+Op("polyhedron_from_faces", [PHED], lambda a, p: __import__("geometer.shapes", fromlist=["x"]).Polyhedron(*list(a[0].faces)[:4]),
+   api="Polyhedron")
+Op("quadric_normalize", [QU], lambda a, p: type(a[0])(a[0].array, is_dual=a[0].is_dual, normalize_matrix=True)
+   if type(a[0]).__name__ in ("Quadric", "Conic", "QuadricCollection") else Quadric(a[0].array, normalize_matrix=True),
+   api="QuadricTensor")
+Op("quadric_from_tensor", [QU], lambda a, p: (QuadricCollection if a[0].free_indices else Quadric)(a[0], normalize_matrix=True),
+   api="QuadricTensor")
+Op("transfcoll_of", [S("transf", coll=False)] * 2, lambda a, p: TransformationCollection([a[0], a[1]]),
+   api="TransformationCollection")
+Op("segmentcoll_of_arrays", [PT, PT], lambda a, p: SegmentCollection(np.stack(np.broadcast_arrays(a[0].array, a[1].array), axis=-2), copy=False),
+   api="SegmentCollection")
+Op("polygon_nocopy", [S("polygon")], lambda a, p: type(a[0])(a[0].array, copy=False)
+   if type(a[0]).__name__ in ("Polygon", "PolygonCollection", "Triangle", "Rectangle") else Polygon(a[0].array, copy=False),
+   api="Polygon")
 Op("regular_ctor2", [PT2_S], lambda a, p: RegularPolygon(a[0], p["r"], p["n"]), p_regular, api="RegularPolygon")
 Op("regular_ctor3", [PT3_S, PT3_S], lambda a, p: RegularPolygon(a[0], p["r"], p["n"], axis=a[1]), p_regular,
    api="RegularPolygon")
